@@ -211,6 +211,27 @@ def p_route_radius3():
     return canon(pipeline(32, cores=2, radius=3, w=3, h=2)[7])
 
 
+def _torus_nets(names, seed, w=4, h=4):
+    """nets on a fault-free w x h torus between chips that have SEVERAL shortest vectors (opposite corners of even tori), every
+    vertex fixed to its chip: the router breaks those ties with `random`, seeded here -> the trees"""
+    from rig.netlist import Net
+    from rig.place_and_route import Machine, Cores, route
+    chips = {"a": (0, 0), "b": (w // 2, 0), "c": (w // 2, h // 2), "d": (0, h // 2), "e": (1, 1), "f": (1 + w // 2, 1 + h // 2)}
+    vs = dict((n, V(n, i)) for i, n in enumerate(sorted(chips)))
+    nets = [Net(vs[s_], [vs[t] for t in ts]) for s_, ts in names]
+    vr = dict((v, {Cores: 1}) for v in vs.values())
+    pl = dict((vs[n], chips[n]) for n in chips)
+    al = dict((v, {Cores: slice(1, 2)}) for v in vs.values())
+    random.seed(seed)
+    return route(vr, nets, Machine(w, h, {Cores: 4}), [], pl, al, radius=20)
+
+
+def p_route_torus_ties():
+    """routes between chips with more than one shortest torus vector, random seeded just before: the trees"""
+    return [canon(_torus_nets([("a", ["b"]), ("a", ["c", "d"]), ("e", ["f"])], 12345)),
+            canon(_torus_nets([("a", ["b"]), ("d", ["c"])], 7, w=6, h=4))]
+
+
 def p_tables_from_routes():
     from rig.routing_table import routing_tree_to_tables
     r = pipeline(33, cores=2)
@@ -276,6 +297,43 @@ def _controllers(**kw):
         mcm.SCPConnection, bmm.SCPConnection = real
 
 
+def _boot_recorded(host, **options):
+    """the real boot() over a recording socket and a frozen clock -> (sha1 of everything sent, sv defaults of the structs returned)"""
+    import hashlib
+    from rig.machine_control import boot as B
+    sent = []
+
+    class Sock(object):
+        def __init__(self, *a):
+            pass
+
+        def connect(self, addr):
+            pass
+
+        def send(self, data):
+            sent.append(bytes(data))
+
+        def close(self):
+            pass
+    real = B.socket.socket, B.time.sleep, B.time.time
+    B.socket.socket, B.time.sleep, B.time.time = Sock, (lambda s: None), (lambda: 1234567.0)
+    try:
+        structs = B.boot(host, boot_delay=0, post_boot_delay=0, **options)
+    finally:
+        B.socket.socket, B.time.sleep, B.time.time = real
+    sv = structs[b"sv"]
+    return [hashlib.sha1(b"".join(sent)).hexdigest(), len(sent),
+            sorted([k.decode(), int(f.default)] for k, f in sv.fields.items() if isinstance(f.default, int))[:80]]
+
+
+def p_boot_and_controller_defaults():
+    """a default boot (no options), and the system-variable defaults a MachineController built afterwards starts from"""
+    first = _boot_recorded("some-board")
+    mc, _ = _controllers()
+    sv = mc.structs[b"sv"]
+    return [first, sorted([k.decode(), int(f.default)] for k, f in sv.fields.items() if isinstance(f.default, int))[:80]]
+
+
 def p_controller_default_contexts():
     """the contextual arguments in force in a newly constructed MachineController / BMPController (default initial context)"""
     mc, bc = _controllers()
@@ -329,6 +387,9 @@ def h_place_other_graphs():
 
 def h_route_other():
     from rig.routing_table import routing_tree_to_tables, minimise_tables
+    for sd in range(12):        # the same chip pairs on the same tori routed before, under other seeds and in other nets
+        _torus_nets([("a", ["b", "e"]), ("c", ["a"]), ("f", ["e", "d"]), ("b", ["a"])], sd)
+        _torus_nets([("b", ["a"]), ("c", ["d", "a"])], 100 + sd, w=6, h=4)
     for s in range(40):
         try:
             r = pipeline(2000 + s, placer=["sequential", "hilbert", "rcm"][s % 3], radius=[0, 1, 2, 3, 5, 20][s % 6],
@@ -370,6 +431,9 @@ def h_objects():
     e.sources.add(Routes.north)
     cm = ContextMixin()
     cm.update_current_context(x=1, y=2)
+    from rig.machine_control import boot as _B  # other boards booted before, with the board presets and overrides of their own
+    _boot_recorded("spinn3-board", **_B.spin3_boot_options)
+    _boot_recorded("spinn5-board", led0=0x1234, **dict((k, v) for k, v in _B.spin5_boot_options.items() if k != "led0"))
     mc, bc = _controllers()                     # controllers used before: their base context was updated, blocks entered
     mc.update_current_context(app_id=30, x=1, y=2)
     bc.update_current_context(board=5)
@@ -414,7 +478,7 @@ def run_request(req):
             HISTORIES[h]()
         for p in req["probes"]:
             try:
-                out[p] = PROBES[p]()
+                out[p] = json.loads(json.dumps(PROBES[p]()))      # (the form a child process reports: tuples become lists)
             except Exception as e:      # a probe that starts failing after a history is a difference too
                 out[p] = ["EXCEPTION", type(e).__name__, str(e)]
     return out
